@@ -30,10 +30,12 @@ NOPATH = ('NO_PATH', 'NO_PATH_WITH_CONSTRAINT', 'NO_FEASIBLE_BAUDRATE_WITH_SPACI
 def batch_case(draw):
     si = draw(netgen.si_entry(tx_power='none', power=0))
     si['spacing'], si['baud_rate'] = 50e9, 32e9
+    # system margins of several dB: requests served with less than twice the margin above the bare threshold exist
+    si['sys_margins'] = draw(st.sampled_from([0, 2, 3, 5]))
     lib = draw(netgen.edfa_library(n=(2, 4), kinds=('variable_gain', 'fixed_gain')))
     hi = draw(st.booleans())       # library in which no mode can work (NO_FEASIBLE_MODE class)
     trx = [{'type_variety': 'T0', 'frequency': {'min': si['f_min'], 'max': si['f_max']}, 'mode': [
-        {'format': 'm0', 'baud_rate': 32e9, 'OSNR': 70 if hi else draw(st.sampled_from([8, 11])), 'bit_rate': 100e9,
+        {'format': 'm0', 'baud_rate': 32e9, 'OSNR': 70 if hi else draw(st.sampled_from([8, 11, 14, 17, 20, 23])), 'bit_rate': 100e9,
          'roll_off': 0.15, 'tx_osnr': 40, 'min_spacing': 50e9, 'cost': 1,
          # tables whose slopes start at 0, so that every route carries a non-zero penalty (CD ps/nm, PMD ps, PDL dB)
          'penalties': [{'chromatic_dispersion': 0, 'penalty_value': 0},
